@@ -9,6 +9,8 @@ NEEDS_CVM = True
 ORACLE_ON_MODEL = False  # the model side of a VM case runs the *real* image: it is not Model(x) of the theorem
 AUDIT_IMPORTS = ["PortusModel.Props.C03", "PortusModel.Props.C10", "PortusModel.Props.C13", "PortusModel.Props.C14",
                  "PortusModel.Props.C01Sim", "PortusModel.Props.C01Decode"]
+# theorems of Props/Tables.lean over the tables TRANSLATED from /repo/src and libccp's headers on every run (DESIGN 11.7)
+TABLE_THEOREMS = ['src_opTable_eq', 'src_opcodes_eq', 'src_regEnc_eq', 'opcodes_shared_with_libccp', 'regclasses_shared_with_libccp', 'indices_fit_libccp', 'primitives_shared_with_libccp', 'implicits_shared_with_libccp', 'libccp_model_constants']
 THEOREMS = ["Portus.C01.run_correct_from_bytes", "Portus.C01.run_decoded", "Portus.C01.compiled_install_decodes", "Portus.C01.install_decodes",
             "Portus.C01.exSrc_decodes", "Portus.C01.cexSrc2_inTheorem", "Portus.C01.cexSrc2_not_defBeforeUse",
             "Portus.C01.nestedSrc_inTheorem", "Portus.C01.nestedSrc_not_stratified", "Portus.C01.nestedSrc_run", "Portus.C01.hazard_discrepancy", "Portus.C01.compiled_run_correct", "Portus.C01.check_accepts_compiled", "Portus.C01.exSrc_inTheorem",
